@@ -4,8 +4,9 @@ set -u
 patch="$1"; shift
 cd /verif
 if ! git -C /repo diff --quiet; then echo "/repo dirty, refusing"; exit 3; fi
-git -C /repo apply "$patch" || { echo "patch does not apply"; exit 3; }
-trap 'git -C /repo checkout -- . ; echo "[reverted /repo]"' EXIT
+git -C /repo apply "$patch" 2>/dev/null || git -C /repo apply --3way "$patch" || { git -C /repo reset -q --hard HEAD; echo "patch does not apply"; exit 3; }
+if git -C /repo diff --name-only --diff-filter=U | grep -q .; then git -C /repo reset -q --hard HEAD; echo "patch conflicts"; exit 3; fi
+trap 'git -C /repo reset -q --hard HEAD ; echo "[reverted /repo]"' EXIT
 for pid in "$@"; do
   echo "=== $pid on $(basename $(dirname $patch))"
   python3 tools/vcheck.py "$pid" --tier quick 2>&1 | grep -E "^(OK|VIOLATION|KNOWN|INFRA)" | head -5
